@@ -610,15 +610,29 @@ def abbe(ctx):
                 call.args:
             c_ = const_of(call.args[0])
             return A(f'n({float(c_):.7f})') if c_ is not None else None
-    ev = Ev(inline=inline)
-    ev.run(f.node.body)
+    from ..rat import explore
+
+    def run(ch):
+        ev = Ev(inline=inline, choose=ch)
+        ev.run(f.node.body)
+        return ev.returned
+    try:
+        outs = explore(run)
+    except Inconclusive as e:
+        raise AnalysisError(f'BaseMaterial.abbe: {e}')
     want = (A('n(0.5875618)') - ONE) / (A('n(0.4861327)') - A('n(0.6562725)'))
-    if isinstance(ev.returned, Rat) and rat_eq(ev.returned, want):
-        res.ok('abbe() == (n(0.5875618) - 1)/(n(0.4861327) - n(0.6562725))')
-    else:
-        res.fail(ctx.finding('ABBE', f, f.node,
-                             f'abbe() = {ev.returned}, expected '
-                             f'(n_d - 1)/(n_F - n_C)', construct='abbe formula'))
+    for dec, r in outs:
+        tag = f' (branch decisions {dec})' if dec else ''
+        if isinstance(r, Rat) and rat_eq(r, want):
+            res.ok('abbe() == (n(0.5875618) - 1)/(n(0.4861327) - '
+                   'n(0.6562725))' + tag)
+        else:
+            res.fail(ctx.finding(
+                'ABBE', f, f.node,
+                f'abbe() = {r}{tag}, expected (n_d - 1)/(n_F - n_C) for '
+                f'every material (a branch on the size of n_F - n_C returns '
+                f'something else for weakly dispersive media)',
+                construct='abbe formula'))
     return res
 
 
